@@ -363,6 +363,8 @@ def run(ctx: Context, rep) -> None:
            message="the consistency check looks at the committed state")
     from sa.rules import shared
     shared.check_no_memo(ctx, rep, "C05.memo")
+    from sa.rules import shared as _shl
+    _shl.check_log_args_pure(ctx, rep, "C05.log")
     # the "current" digests of the description are computed now, from the file
     from sa import pathval
     cur = ctx.fn(f"{DW}.current_metadata_checksums")
